@@ -1,4 +1,5 @@
 import PhreeqcVerif.Lemmas.Surface
+import PhreeqcVerif.Gen.SurfConst
 /-! # C20 — surface complexation obeys site balance, electrostatic mass action, charge laws
 
 Theorems about `Model/Surface.lean` (the model of `residuals`/`check_residuals`/`model`, `add_potential_factor`,
@@ -8,6 +9,59 @@ except what a hypothesis states.  The tie to the C++ is the correspondence check
 (`pmodel surface` executes the same definitions on `Float` against the in-process dump of real runs). -/
 namespace PhreeqcVerif.Surface
 open NumOps
+
+/-! ## 0. the constants of the model are the constants of the source (translator `tools/gen_surfconst.py`) -/
+
+/-- `Gen/SurfConst.lean` is regenerated from `global_structures.h`, `model.cpp`, `prep.cpp` on every run; the model's
+Faraday / gas / permittivity constants, the `8` of the Gouy–Chapman constant, the `0.5` of the CD-MUSIC diffuse-layer
+charge, the `-2` of the psi token and the `2` of the CCM row are exactly the extracted ones -/
+theorem source_constants (f : TransFns Rat) (epsr tk x sum cap la : Rat) (aq : List (Rat × Rat)) :
+    letI := ratOps f
+    Gen.SurfConst.recognised = true ∧
+    (F_C_MOL : Rat) = Gen.SurfConst.F_C_MOL ∧ (F_KJ_V_EQ : Rat) = Gen.SurfConst.F_KJ_V_EQ ∧
+    (R_KJ_DEG_MOL : Rat) = Gen.SurfConst.R_KJ_DEG_MOL ∧ (EPSILON_ZERO : Rat) = Gen.SurfConst.EPSILON_ZERO ∧
+    sinhConstant epsr tk = f.sqrt (Gen.SurfConst.GC_FACTOR * epsr * Gen.SurfConst.EPSILON_ZERO *
+      (Gen.SurfConst.R_KJ_DEG_MOL * 1000) * tk * 1000) ∧
+    (0 ≤ sum → 0 ≤ x → cdSigmaDDL epsr tk x sum = Gen.SurfConst.CD_DDL_FACTOR * sinhConstant epsr tk * f.sqrt sum) ∧
+    psiCoef aq = Gen.SurfConst.PSI_COEF * aq.foldl (fun acc cz => acc + cz.2 * cz.1) 0 ∧
+    ccmSigmaLa cap tk la = cap * la * Gen.SurfConst.CCM_FACTOR * Gen.SurfConst.R_KJ_DEG_MOL * tk * f.ln 10 / Gen.SurfConst.F_KJ_V_EQ := by
+  refine ⟨by decide, by simp only [F_C_MOL, NumOps.lit, NumOps.ofRat, id_eq]; decide +kernel,
+    by simp only [F_KJ_V_EQ, NumOps.lit, NumOps.ofRat, id_eq]; decide +kernel,
+    by simp only [R_KJ_DEG_MOL, NumOps.lit, NumOps.ofRat, id_eq]; decide +kernel,
+    by simp only [EPSILON_ZERO, NumOps.lit, NumOps.ofRat, id_eq]; decide +kernel, ?_, ?_, ?_, ?_⟩
+  · have e1 : Gen.SurfConst.GC_FACTOR = 8 := by decide +kernel
+    have e2 : Gen.SurfConst.EPSILON_ZERO = 8854 / 1000000000000000 := by decide +kernel
+    have e3 : Gen.SurfConst.R_KJ_DEG_MOL = 83147 / 10000000 := by decide +kernel
+    simp only [sinhConstant, EPSILON_ZERO, R_KJ_DEG_MOL, NumOps.lit, NumOps.sqrt, NumOps.ofRat, id_eq, e1, e2, e3]
+    rfl
+  · intro hs hx
+    have e1 : Gen.SurfConst.CD_DDL_FACTOR = 1 / 2 := by decide +kernel
+    have h1 : ¬ sum < 0 := by grind
+    have h2 : ¬ x < 0 := by grind
+    simp only [cdSigmaDDL, NumOps.lit, NumOps.sqrt, NumOps.ofRat, id_eq, h1, h2, if_false, e1]
+    rfl
+  · have e1 : Gen.SurfConst.PSI_COEF = -2 := by decide +kernel
+    simp only [psiCoef, NumOps.lit, NumOps.ofRat, id_eq, e1]
+  · have e1 : Gen.SurfConst.CCM_FACTOR = 2 := by decide +kernel
+    have e2 : Gen.SurfConst.F_KJ_V_EQ = 964935 / 10000 := by decide +kernel
+    have e3 : Gen.SurfConst.R_KJ_DEG_MOL = 83147 / 10000000 := by decide +kernel
+    simp only [ccmSigmaLa, F_KJ_V_EQ, R_KJ_DEG_MOL, LOG_10, NumOps.lit, NumOps.ln, NumOps.ofRat, id_eq, e1, e2, e3]
+    rfl
+
+/-- a row for which `check_residuals` would print an ERROR is a row that `residuals` does not accept: after
+`residuals` reported CONVERGED no surface row can raise the ERROR of `check_residuals` -/
+theorem checkError_imp_fails (f : TransFns Rat) (e : Env Rat) (r : Row Rat) :
+    letI := ratOps f
+    r.checkError e = true → r.fails e = true := by
+  intro h
+  cases r with
+  | site m fs =>
+    simp only [Row.checkError, Row.fails, absGt, absLt, NumOps.lit, NumOps.ofRat, id_eq] at h ⊢
+    by_cases hm : m ≤ e.minRel <;> simp [hm] at h ⊢ <;> grind
+  | ddl g a la fs => simpa [Row.checkError, Row.fails] using h
+  | ccm g a c la fs => simpa [Row.checkError, Row.fails] using h
+  | dl g fs => simpa [Row.checkError, Row.fails] using h
+  | cb g res => simpa [Row.checkError, Row.fails] using h
 
 /-! ## 1. the gate: a call of `model()` that completes without error ends in a state whose surface rows pass -/
 
